@@ -417,6 +417,9 @@ namespace GeographicLib {
     north = Math::LatFix(north);
     west = Math::AngNormalize(west); // west in [-180, 180)
     east = Math::AngNormalize(east);
+    if (isnan(south) || isnan(north) || isnan(west) || isnan(east))
+      // LatFix and AngNormalize return nan for illegal or non-finite arguments
+      throw GeographicErr("Geoid cache limits must be finite with latitudes in [-90d, 90d]");
     if (east <= west)
       east += Math::td;         // east - west in (0, 360]
     int
